@@ -120,7 +120,7 @@ def history_independence(chk, P, rule="R-HISTORY"):
     return n
 
 
-DEFINERS = ("hwloc_bitmap_zero", "hwloc_bitmap_fill", "hwloc_bitmap_copy", "hwloc_bitmap_reset_by_ulongs", "hwloc_bitmap_realloc_by_ulongs")
+DEFINERS = ("hwloc_bitmap_zero", "hwloc_bitmap_fill", "hwloc_bitmap_copy", "hwloc_bitmap_reset_by_ulongs")   # not realloc_by_ulongs: it only grows, stale upper words survive
 ACCUM = ("hwloc_bitmap_set", "hwloc_bitmap_set_range", "hwloc_bitmap_clr", "hwloc_bitmap_clr_range", "hwloc_bitmap_set_ith_ulong", "hwloc_bitmap_or", "hwloc_bitmap_and")
 
 
@@ -160,6 +160,16 @@ def define_before_accumulate(chk, P, funcs, rule="R-DEFINE"):
                     k += 1
                     n += 1
                     chk.inst(rule, f, "word-rmw#%d" % k, D in st, "read-modify-write of a destination word must follow a call that defines the set", loc=f.loc(x))
+                elif t["k"] == "Sub" and lv(t["c"][0]) == "%s->ulongs" % d and a[1] == "=":
+                    # a plain word store defines that word only: the EXTENT of the set must have been defined exactly before
+                    # (reset_by_ulongs / zero / fill / copy; realloc_by_ulongs only grows and keeps stale upper words)
+                    st = m.before.get(x["id"])
+                    if st is None:
+                        continue
+                    k += 1
+                    n += 1
+                    chk.inst(rule, f, "word-store#%d" % k, D in st, "a word store into the destination must follow a call that defines the set's extent exactly "
+                             "(reset_by_ulongs/zero/fill/copy, not realloc_by_ulongs which keeps stale upper words)", loc=f.loc(x))
         # failure path re-zeroes (documented: returns -1 with the set zeroed)
     return n
 
